@@ -23,7 +23,7 @@ ASSUMPTIONS = ["reaction table written from RFC 7252 section 4 and RFC 7967, ind
                "CON requests addressed to a multicast group are not generated (peer misbehaviour the statement does not cover)"]
 EXPECTED_PROBES = ["token_reused_after_completed_exchange", "duplicated_request", "ping", "piggyback", "empty_ack_then_separate", "handler_at_delay_minus_eps", "handler_at_delay_plus_eps",
                    "matched_con_response", "unmatched_con_response_unicast", "unmatched_con_response_multicast",
-                   "no_response_suppressed", "misfit", "request_to_multicast", "reliable_to_multicast"]
+                   "no_response_suppressed", "misfit", "request_to_multicast", "reliable_to_multicast", "boundary_message_id"]
 
 DELAY = 0.1
 HANDLERS = {"fast": 0.0, "pre": DELAY - 1e-3, "post": DELAY + 1e-3, "slow": 0.5}
@@ -87,6 +87,10 @@ def gen(r, tier):
                 # the network duplicates the request datagram; the copy arrives a little later
                 ops.append({"op": "dup", "of_t": op["t"], "t": round(op["t"] + r.choice([0.0, 0.01, 0.05, 0.095, 0.105, 0.3, 1.0]), 4)})
     ops.sort(key=lambda o: o["t"])
+    inj = [o for o in ops if o["op"] == "inject"]
+    if inj and r.chance(0.3):
+        # message IDs at the ends of the 16-bit range (0 is a valid message ID)
+        r.choice(inj)["mid"] = r.choice([0, 0, 0xFFFF])
     return {"ops": ops}
 
 
@@ -218,8 +222,10 @@ def execute(sim, scn):
                 sim.probe("reliable_to_multicast")
 
     def do_inject(i, op):
-        mid = 0x8000 + i
+        mid = op.get("mid", 0x8000 + i)
         token = bytes([0xE0, i])
+        if mid in (0, 0xFFFF):
+            sim.probe("boundary_message_id")
         if op.get("token") == "match":
             # the oldest request of the endpoint the peer has seen and that is still outstanding
             cand = [m for (t, m, dip) in peer.requests_seen if not is_mcast(dip) and m["token"] in live_tokens()]
